@@ -15,7 +15,7 @@ Handler behaviour grammar (JSON):
     {"kind": "gen", "steps": [STEP...], "end": "stop|raise"}     generator function
         STEP = {"s": S, "d": D} | {"raise": 1} | {"abort": 1} | {"release": 1} | {"raw": R}
                | {"count": V} | {"dest": V}      (C-GET: first step count; C-MOVE: dest then count)
-    S = {"t":"int","v":n} | {"t":"ds","v":n,"x":{kw: value}} | {"t":"ds-nostatus"} | {"t":"none"} | {"t":"str"}
+    S = {"t":"int","v":n} | {"t":"intenum","v":n} (IntEnum member) | {"t":"ds","v":n,"x":{kw: value}} | {"t":"ds-nostatus"} | {"t":"none"} | {"t":"str"}
         | {"t":"float"} | {"t":"list"}
     D = {"t":"valid","k":n} | {"t":"none"} | {"t":"empty"} | {"t":"unenc"} | {"t":"str"} | {"t":"int"}
         | {"t":"inst","k":i} | {"t":"inst-nouid","k":i} | {"t":"inst-noclass","k":i} | {"t":"inst-nometa","k":i}
@@ -328,6 +328,9 @@ def build_status(spec):
     t = spec["t"]
     if t == "int":
         return spec["v"]
+    if t == "intenum":
+        import enum
+        return enum.IntEnum("HandlerStatus", {"VALUE": spec["v"]}).VALUE      # an int subclass, like pynetdicom.status.Status
     if t == "ds":
         ds = Dataset()
         ds.Status = spec["v"]
@@ -355,7 +358,7 @@ def build_status(spec):
 def resolve_status(spec):
     """What the spec means, independent of pynetdicom: ('code', int, extras) | ('nostatus',) | ('badtype',)."""
     t = spec["t"]
-    if t == "int":
+    if t in ("int", "intenum"):
         return ("code", spec["v"], {})
     if t == "ds":
         return ("code", spec["v"], dict(spec.get("x") or {}))
@@ -926,7 +929,7 @@ def _pick_status(rng, fam, dimse, weights=None):
     if c in ("success", "failure", "warning", "cancel", "pending"):
         if not fam.get(c):
             c = "failure"
-        return {"t": "int", "v": code_of(c)}
+        return {"t": "intenum" if rng.random() < 0.12 else "int", "v": code_of(c)}
     if c == "unknown":
         return {"t": "int", "v": rng.choice(UNKNOWN_INTS)}
     if c == "range":
@@ -991,7 +994,7 @@ def _gen_find_handler(rng, fam, dimse):
         else:
             # mostly pending in the middle, anything at the end
             if i < n - 1 and rng.random() < 0.75:
-                s = {"t": "int", "v": rng.choice(fam["pending"])}
+                s = {"t": "intenum" if rng.random() < 0.08 else "int", "v": rng.choice(fam["pending"])}
             else:
                 s = _pick_status(rng, fam, dimse)
             kind = resolve_status(s)
@@ -1163,6 +1166,10 @@ PINNED = [
     _P("store-ct", {"kind": "raise"}, 65535),
     _P("find-mwl", {"kind": "gen", "steps": [_pend(2), {"raise": 1}], "end": "stop"}, 0, "big"),
     _P("nset-mpps", {"kind": "ret", "s": {"t": "ds-nostatus"}, "d": {"t": "none"}}),
+    # an int subclass (IntEnum, like the documented pynetdicom.status.Status constants) is an integer status
+    _P("store-mr", {"kind": "ret", "s": {"t": "intenum", "v": 0xB000}, "d": {"t": "none"}}, 11),
+    _P("find-pso", {"kind": "gen", "steps": [{"s": {"t": "intenum", "v": 0xFF00}, "d": {"t": "valid", "k": 1}},
+                                             {"s": {"t": "intenum", "v": 0xFE00}, "d": {"t": "none"}}], "end": "stop"}, 12),
 ]
 PINNED_RETRIEVE = [
     # an object that is no Dataset must consume one of the N announced sub-operations
